@@ -65,7 +65,7 @@ def _worker(arg):
             short = n_unknown >= 3 and tier != 'thorough'
             r = solve.check_valid(vc.pc, vc.goal, all_backends=(tier == 'thorough'),
                                   z3_timeout_ms=3000 if short else getattr(chk, 'z3_timeout_ms', None),
-                                  ematch_probe=probe, short=short)
+                                  ematch_probe=probe, short=short, cvc5_first=bool(getattr(chk, 'cvc5_first', False)))
             if r['verdict'] == 'unknown':
                 n_unknown += 1
             rec.update(verdict=r['verdict'], backend=r['backend'], ms=r['ms'], detail=r['detail'], all=r.get('all'),
